@@ -42,6 +42,7 @@ func plans(e *common.Env, i int, r *rand.Rand) (prog.Config, prog.Plan) {
 	switch k := r.IntN(40); {
 	case k < 2 && i%7 == 0:
 		p.Sparse = true
+		p.SparseHigh = r.IntN(3) == 0
 	case k < 4:
 		p.DeferredStream = true
 	case k < 6:
@@ -69,7 +70,7 @@ func main() {
 			cfg = prog.Config{VIdx: 5 + i%4, Seek: i%2 == 0}
 			switch i % 3 {
 			case 0:
-				plan = prog.Plan{Sparse: true, MaxOps: 1 + i%2}
+				plan = prog.Plan{Sparse: true, SparseHigh: i == 3, MaxOps: 1 + i%2}
 			case 1:
 				plan = prog.Plan{DeferredStream: true, MaxOps: 6}
 			default:
